@@ -115,7 +115,7 @@ func WConfig(prop, tier string) *Config {
 			cfg.Phases = []Phase{{Name: "full-depth2", Roots: roots016, Ops: ops, Depth: 2, Dev: 2}}
 		}
 	case "C13":
-		ops := []string{"swap_in_p1_usdc_atom_L", "swap_in_p2_usdc_elys_L", "fee_tx_uusdc", "fee_tx_uatom", "fee_tx_uelys", "perp_open_long_t1", "perp_close_full_t1", "gap_1d", "ext_incentive_lp1", "join_p1_all_t1", "exit_p1_all_t1", "join_p2_all_lp2", "bond_lp1_L", "unbond_lp2_half",
+		ops := []string{"swap_in_p1_usdc_atom_L", "swap_in_p2_usdc_elys_L", "fee_tx_uusdc", "fee_tx_uatom", "fee_tx_uelys", "perp_open_long_t1", "perp_close_full_t1", "gap_1d", "ext_incentive_lp1", "join_p1_all_t1", "exit_p1_all_t1", "exit_p1_10pct_lp1", "join_p2_all_lp2", "bond_lp1_L", "unbond_lp2_half",
 			"llp_open_t1_x3", "llp_close_full_t1", "mc_claim_lp1", "mc_claim_lp2", "mc_claim_t1", "empty"}
 		cfg.Oracles = []*Oracle{OracleC13()}
 		if thorough {
